@@ -77,12 +77,33 @@ TraceStep ==
                  why == early \cup Diff(e.obs, grp', pub', ep', fed' > 0, fs')
              IN IF why = {} THEN failed' = FALSE ELSE Refuse(why)
 
+\* "TimerFire+PubStart": the driver let a publisher arrive INSIDE the expiry - after the timer had decided to remove the
+\* directory and before it removed it (verif hook between the two).  The property allows no third outcome: the expiry and
+\* the arrival are serialised, and since the decision was taken first the result is that of TimerFire followed by PubStart
+\* (a fresh directory for the new publication).  Only the state after both can be observed.
+RaceOk == TimerFireOk /\ ~AliveFor(timers[1]) /\ ~pub /\ ep < MaxEp /\ (grp = 0 => ngrp < MaxGrp)
+RaceFx ==
+  /\ grp' = (IF grp = 0 THEN ngrp + 1 ELSE grp) /\ ngrp' = (IF grp = 0 THEN ngrp + 1 ELSE ngrp)
+  /\ pub' = TRUE /\ ep' = ep + 1 /\ fed' = 0
+  /\ fs' = [NoDir EXCEPT !.dir = TRUE]
+  /\ timers' = Aged(Tail(timers)) /\ sub' = sub
+TraceRace ==
+  /\ l <= Len(Trace) /\ Trace[l].ev = "TimerFire+PubStart" /\ l' = l + 1 /\ UNCHANGED <<l0, sc>>
+  /\ LET e == Trace[l] IN
+     IF failed THEN UNCHANGED mvars /\ failed' = TRUE
+     ELSE IF e.panic # "" THEN UNCHANGED mvars /\ Refuse({"panic"})
+     ELSE IF ~RaceOk THEN UNCHANGED mvars /\ Refuse({"notEnabled"})
+     ELSE /\ RaceFx /\ mode' = mode /\ act' = [name |-> e.ev]
+          /\ LET early == {"early:" \o x : x \in Diff(e.pre, grp, pub, ep, fed > 0, fs)}
+                 why == early \cup Diff(e.obs, grp', pub', ep', fed' > 0, fs')
+             IN IF why = {} THEN failed' = FALSE ELSE Refuse(why)
+
 \* a scenario that missed a real-time bound is not judged (the check reports it as an infrastructure failure)
 TraceLate ==
   /\ l <= Len(Trace) /\ Trace[l].ev = "late" /\ l' = l + 1
   /\ failed' = TRUE /\ UNCHANGED <<mvars, l0, sc>>
 
-TraceNext == TraceReset \/ TraceStep \/ TraceLate
+TraceNext == TraceReset \/ TraceStep \/ TraceRace \/ TraceLate
 TraceSpec == TraceInit /\ [][TraceNext]_tvars
 HighWater == TLCSet(1, IF l > TLCGet(1) THEN l ELSE TLCGet(1))
 Accept == PrintT("@HW@" \o ToString(TLCGet(1)))
